@@ -254,34 +254,52 @@ PROBES = [
     ("array_combine", "echo json_encode(array_keys(array_combine(array_keys($A), array_values($L5))));"),
     ("http_build_query", "echo http_build_query($A);"),
     ("ksort", "$t=$A; ksort($t); echo json_encode(array_keys($t));"),
-    ("array_walk", "$r=[]; array_walk($A, function($v,$k) use (&$r) { $r[]=$k; }); echo json_encode($r);"),
+    ("array_walk", "$r=[]; array_walk($A, function($v,$k) use (&$r) { $r[]=$k; }, null); echo json_encode($r);"),
     ("str_replace_arr", "echo str_replace(array_keys($A), array_values($L5), 'k1 k2 k3 k4 k5');"),
     ("strtr_arr", "echo strtr('k1 k2 k3', ['k1'=>'k2','k2'=>'k3','k3'=>'k1']);"),
     ("min_max", "echo min($L), max($L);"),
+    # audit follow-up: the remaining std/php functions that ranged over Go maps, object identity, destructuring
+    ("array_merge_recursive", "echo json_encode(array_keys(array_merge_recursive($A, ['zz'=>1])));"),
+    ("array_replace_recursive", "echo json_encode(array_keys(array_replace_recursive($A, ['zz'=>1])));"),
+    ("array_merge_recursive_nested", "echo json_encode(array_merge_recursive(['n'=>$A], ['n'=>['zz'=>1]]));"),
+    ("array_replace_recursive_nested", "echo json_encode(array_replace_recursive(['n'=>$A], ['n'=>['zz'=>1]]));"),
+    ("array_flip_list", "echo json_encode(array_keys(array_flip($LK)));"),
+    ("list_destructure_row", "foreach ([$A] as [$d1, $d2, $d3]) { echo json_encode([$d1, $d2, $d3]); }"),
+    ("spl_object_id", "$o1 = new stdClass(); $o2 = new stdClass(); echo spl_object_id($o1), ':', spl_object_id($o2), ':', spl_object_id($o1);"),
+    ("spl_object_hash", "echo spl_object_hash($P), ':', spl_object_hash($O);"),
+    ("spl_object_id_this", "echo spl_object_id($P) === $P->myid() ? 'same' : 'differs';"),
+    ("spl_object_storage", "$st = new SplObjectStorage(); $st->attach($P); $st->attach($O); echo count($st), ':', $st->contains($P) ? 'y' : 'n';"),
+    ("reflection_attribute", "foreach ((new ReflectionClass('C20Ctl'))->getAttributes() as $at) { echo json_encode($at->newInstance()); }"),
 ]
 PRELUDE = """<?php
 class C20S { public static function twice($x) { return 2*$x; } }
-class C20P { public $pa = 1; public $pb = 2; public $pc = 3; public $pd = 4; public $pe = 5; public $pf = 6;
-  function ma() {} function mb() {} function mc() {} function md() {} function me() {} }
+class C20P { public $pa = 1; public $pb = 2; public $pc = 3; public $pd = 4; public $pe = 5; public $pf = 6; public $pg = 7; public $ph = 8; public $pi = 9; public $pj = 10; public $pk = 11; public $pl = 12;
+  function ma() {} function mb() {} function mc() {} function md() {} function me() {} function mf() {} function mg() {} function mh() {} function mi() {} function mj() {} function myid() { return spl_object_id($this); } }
+#[Attribute]
+class C20Route { public $r1; public $r2; public $r3; public $r4; public $r5; public $r6; public $r7; public $r8; public $r9; public $r10;
+  function __construct($a = 1, $b = 2) { $this->r1 = $a; $this->r2 = $b; $this->r3 = 3; $this->r4 = 4; $this->r5 = 5; $this->r6 = 6; $this->r7 = 7; $this->r8 = 8; $this->r9 = 9; $this->r10 = 10; } }
+#[C20Route(7, 9)]
+class C20Ctl {}
 function get_class_vars_c20($o) { $r = []; foreach ($o as $k => $v) { $r[$k] = $v; } return $r; }
 """
 
 
 def gen_probe_program(rng, nprobes, pool=None):
-    keys = ["k1", "k2", "k3", "k4", "k5", "k6", "k7"]
+    keys = ["k%d" % i for i in range(1, 13)]
     rng.shuffle(keys)
-    nk = rng.randint(4, 7)
+    nk = 12     # a Go map with more than 8 entries spans several buckets: thousands of iteration orders (map_order_entropy)
     vals = [rng.randint(0, 4) for _ in range(nk)]
     A = "[" + ", ".join("'%s'=>%d" % (k, v) for k, v in zip(keys[:nk], vals)) + "]"
     L = "[" + ", ".join(str(rng.randint(0, 9)) for _ in range(rng.randint(3, 7))) + "]"
     J = "'{" + ",".join('"%s":%d' % (k, v) for k, v in zip(keys[:nk], vals)) + "}'"
-    src = [PRELUDE, "$A = %s; $L = %s; $L5 = [1,2,3,4,5,6,7]; $L5 = array_slice($L5, 0, %d); $J = %s;" % (A, L, nk, J),
+    src = [PRELUDE, "$A = %s; $L = %s; $L5 = [1,2,3,4,5,6,7,8,9,10,11,12]; $L5 = array_slice($L5, 0, %d); $J = %s; $LK = %s;" % (A, L, nk, J, "[" + ", ".join("'%s'" % k for k in keys[:nk]) + "]"),
            "$O = new stdClass(); " + " ".join("$O->%s = %d;" % (k, v) for k, v in zip(keys[:nk], vals)),
            "$P = new C20P();"]
     pool = pool or PROBES
     chosen = rng.sample(pool, min(nprobes, len(pool)))
     for lab, code in chosen:
-        src.append("echo \"%s\\t\"; %s echo \"\\n\";" % (lab, code))
+        # each probe in its own try: a probe that throws must not hide the ones after it
+        src.append("echo \"%s\\t\"; try { %s } catch (\\Throwable $pe) { echo 'THROWN:', get_class($pe); } echo \"\\n\";" % (lab, code))
     ks, vs = keys[:nk], vals
     first = {}
     for k, v in zip(ks, vs):
@@ -298,22 +316,110 @@ def gen_probe_program(rng, nprobes, pool=None):
         "array_unique": json.dumps([k for k, v in zip(ks, vs) if first[v] == k], separators=(",", ":")),
         "iterator_to_array": json.dumps(ks, separators=(",", ":")),
         "array_slice": json.dumps(vs[1:3], separators=(",", ":")),
-        "declared_obj": json.dumps(["pa", "pb", "pc", "pd", "pe", "pf"], separators=(",", ":")),
-        "reflect_methods": json.dumps(["ma", "mb", "mc", "md", "me"], separators=(",", ":")),
+        "declared_obj": json.dumps(["p" + c for c in "abcdefghijkl"], separators=(",", ":")),
+        "reflect_methods": json.dumps(["m" + c for c in "abcdefghij"] + ["myid"], separators=(",", ":")),
+        "array_merge_recursive": json.dumps(ks + ["zz"], separators=(",", ":")),
+        "array_replace_recursive": json.dumps(ks + ["zz"], separators=(",", ":")),
+        "array_merge_recursive_nested": json.dumps({"n": dict(list(zip(ks, vs)) + [("zz", 1)])}, separators=(",", ":")),
+        "array_replace_recursive_nested": json.dumps({"n": dict(list(zip(ks, vs)) + [("zz", 1)])}, separators=(",", ":")),
+        "array_flip_list": json.dumps(ks, separators=(",", ":")),
+        "list_destructure_row": json.dumps(vs[:3], separators=(",", ":")),
+        "spl_object_id_this": "same",
+        "reflection_attribute": json.dumps(dict([("r1", 7), ("r2", 9)] + [("r%d" % i, i) for i in range(3, 11)]), separators=(",", ":")),
         "array_walk": None,
     }
     return "\n".join(src) + "\n", [lab for lab, _ in chosen], {k: v for k, v in expect.items() if v is not None}
+
+
+
+# ---------------------------------------------------------------------------- site programs
+# one program per map-ranging site that the probe template cannot host (a fatal error, the .zy object
+# initialiser, html templates rendered through VM.ParseFile, superglobals filled from an HTTP request).
+# Each uses >= 10 keys (thousands of Go map orders) and states the order the fixed code must produce.
+_NAMES10 = ["kd", "ka", "kj", "kc", "kb", "ki", "kf", "ke", "kh", "kg"]
+
+
+def site_programs():
+    progs = []
+    # abstract static methods named in the "must be declared abstract" fatal: sorted (e5592b9)
+    progs.append({"kind": "site", "name": "abstract_static_fatal", "how": "proc", "file": "abs.php",
+                  "src": "<?php\nclass K20 { " + " ".join("abstract static function %s();" % n for n in _NAMES10) + " }\nnew K20();\n",
+                  "expect_in_stderr_or_out": ", ".join("%s()" % n for n in sorted(_NAMES10))})
+    # Class { k: v } initialiser: evaluated in sorted key order (33aeee5)
+    progs.append({"kind": "site", "name": "init_class_kv", "how": "proc", "file": "ic.zy",
+                  "src": "<?php\nclass P20 { " + " ".join("public $%s;" % n for n in _NAMES10) + " }\nfunction t($x) { echo $x, ','; return $x; }\n"
+                         "$p = P20 { " + ", ".join("%s: t('%s')" % (n, n) for n in _NAMES10) + " };\necho \"\\n\";\n",
+                  "expect_out": ",".join(sorted(_NAMES10)) + ",\n"})
+    # html template: attributes in name order (0dbaa06); $.SERVER(obj): insertion order (6bb55c8)
+    attrs = " ".join('%s="%d"' % (n, i) for i, n in enumerate(_NAMES10))
+    progs.append({"kind": "site", "name": "html_attributes", "how": "view",
+                  "src": "<!DOCTYPE html>\n<html>\n<body>\n<div %s>x</div>\n</body>\n</html>\n" % attrs,
+                  "expect_contains": "<div " + " ".join('%s="%d"' % (n, _NAMES10.index(n)) for n in sorted(_NAMES10)) + ">x</div>"})
+    progs.append({"kind": "site", "name": "js_server_object", "how": "view",
+                  "src": "<!DOCTYPE html>\n<html>\n<head>\n<script type=\"text/zy\">\nclass J20 { " + " ".join("public $%s = %d;" % (n, i) for i, n in enumerate(_NAMES10)) + " }\n"
+                         "$o = [" + ", ".join("'%s'=>%d" % (n, i) for i, n in enumerate(_NAMES10)) + "];\n$c = new J20();\n</script>\n"
+                         "<script>\nvar o = $.SERVER($o);\nvar c = $.SERVER($c);\n</script>\n</head>\n<body></body>\n</html>\n",
+                  "expect_contains": "var o = {" + ", ".join('"%s": %d' % (n, i) for i, n in enumerate(_NAMES10)) + "};\nvar c = {" + ", ".join('"%s": %d' % (n, i) for i, n in enumerate(_NAMES10)) + "};"})
+    progs.append({"kind": "site", "name": "html_special_attribute_pick", "how": "view",
+                  "src": "<!DOCTYPE html>\n<html>\n<head>\n<script type=\"text/zy\">\n$l = [1, 2, 3]; $t = true;\n</script>\n</head>\n<body>\n"
+                         "<li %s for=\"$v in $l\">{$v}</li>\n<b %s if=\"$t\">y</b>\n</body>\n</html>\n" % (attrs, attrs),
+                  "expect_contains": None})
+    # superglobals / request accessors filled from Go maps: key order (bf1e1ff, 04b8973)
+    hsrc = ("function h($r, $w) {\n  $o = \"\";\n"
+            "  foreach ($_GET as $k => $v) { $o = $o . $k . \",\"; }\n  $o = $o . \"|\";\n"
+            "  foreach ($_POST as $k => $v) { $o = $o . $k . \",\"; }\n  $o = $o . \"|\";\n"
+            "  foreach ($_SERVER as $k => $v) { if (substr($k, 0, 7) == \"HTTP_X_\") { $o = $o . $k . \",\"; } }\n  $o = $o . \"|\";\n"
+            "  foreach ($r->all() as $k => $v) { $o = $o . $k . \",\"; }\n  $w->write($o);\n}\n")
+    q = ["q" + n for n in _NAMES10]
+    f = ["f" + n for n in _NAMES10]
+    progs.append({"kind": "site", "name": "http_superglobals", "how": "http", "src": hsrc,
+                  "query": "&".join("%s=1" % n for n in q), "form": "&".join("%s=1" % n for n in f),
+                  "headers": [["X-" + n.upper(), "1"] for n in _NAMES10],
+                  "expect_out": ",".join(sorted(q)) + ",|" + ",".join(sorted(f + q)) + ",|" + ",".join(sorted("HTTP_X_" + n.upper() for n in _NAMES10)) + ",|"
+                                + ",".join(sorted(q) + sorted(f)) + ","})
+    return progs
+
+def _site_lists(name, so, se):
+    """(keys the site ranges over, preferred order given to it, order observed in the real output) triples"""
+    q = ["q" + n for n in _NAMES10]
+    f = ["f" + n for n in _NAMES10]
+    if name == "abstract_static_fatal":
+        m = re.search(r"abstract methods? (.*?) and must", so + se)
+        return [(_NAMES10, [], [x.strip()[:-2] for x in m.group(1).split(",")] if m else [])]
+    if name == "init_class_kv":
+        return [(_NAMES10, [], [x for x in so.strip().split(",") if x])]
+    if name == "html_attributes":
+        m = re.search(r"<div (.*?)>x</div>", so)
+        return [(_NAMES10, [], re.findall(r"(\w+)=", m.group(1)) if m else [])]
+    if name == "js_server_object":
+        res = []
+        for var in ("o", "c"):
+            m = re.search(r"var %s = \{(.*?)\};" % var, so)
+            res.append((_NAMES10, _NAMES10, re.findall(r'"(\w+)":', m.group(1)) if m else []))
+        return res
+    if name == "http_superglobals":
+        parts = so.split("|")
+        if len(parts) < 3:
+            return [(q, [], [])]
+        return [(q, [], [x for x in parts[0].split(",") if x]),
+                (f + q, [], [x for x in parts[1].split(",") if x]),
+                (["HTTP_X_" + n.upper() for n in _NAMES10], [], [x for x in parts[2].split(",") if x])]
+    return []
 
 
 # ---------------------------------------------------------------------------- (3) A;B pairs
 # cell table: where each piece of state lives.  PerVM / ProcReset / ProcSticky (Model.v Part 3).
 CELLS = {
     "class": "PerVM", "func": "PerVM", "const": "PerVM", "global": "PerVM", "static_prop": "PerVM",
-    "static_var": "PerVM", "include_once": "PerVM", "exception_handler": "PerVM",
+    "static_var": "PerVM", "include_once": "PerVM", "exception_handler": "PerVM", "interface": "PerVM",
     "userOutputEmitted": "ProcReset", "ob_level": "ProcReset",   # ob stack: flushed and popped by FlushAllBuffersFn at script end (/repo 7b31d88)
-    "ini": "ProcSticky", "GLOBALS": "ProcSticky", "_GET": "ProcSticky", "_POST": "ProcSticky",
-    "_SERVER": "ProcSticky", "_ENV": "ProcSticky", "_SESSION": "ProcSticky", "_COOKIE": "ProcSticky",
-    "_REQUEST": "ProcSticky", "putenv": "ProcSticky", "spl_autoload": "ProcSticky",
+    # package-level caches that runtime.NewVM / php.Load now reset (see the fixed: lines of KNOWN_FINDINGS)
+    "ini": "ProcReset", "GLOBALS": "ProcReset", "_GET": "ProcReset", "_POST": "ProcReset",
+    "_SERVER": "ProcReset", "_ENV": "ProcReset", "_SESSION": "ProcReset", "_COOKIE": "ProcReset",
+    "_REQUEST": "ProcReset", "argv": "ProcReset", "spl_autoload": "ProcReset", "object_ids": "ProcReset",
+    "error_reporting": "ProcReset", "shutdown_list": "PerVM", "error_handler": "PerVM",
+    "header_callbacks": "ProcReset", "time_limit": "ProcReset",
+    "putenv": "ProcSticky",
 }
 # (label, php A, cell written, php B, cell read)
 POLLUTERS = [
@@ -338,6 +444,15 @@ POLLUTERS = [
     ("ob_start", "ob_start(); echo 'x';", "ob_level"),
     ("putenv", "putenv('C20ENV=1');", "putenv"),
     ("spl_autoload", "spl_autoload_register(function($c) {});", "spl_autoload"),
+    ("argv", "$argv[] = 'x';", "argv"),
+    ("object_ids", "$o1 = new stdClass(); $o2 = new stdClass(); echo spl_object_id($o1), spl_object_id($o2);", "object_ids"),
+    ("var_dump_objects", "$o1 = new stdClass(); $o2 = new stdClass(); var_dump($o1); var_dump($o2);", "object_ids"),
+    ("error_reporting", "error_reporting(0);", "error_reporting"),
+    ("shutdown", "register_shutdown_function(function() { echo 'SD'; });", "shutdown_list"),
+    ("error_handler", "set_error_handler(function($n, $s) { echo 'EH'; return true; });", "error_handler"),
+    ("interface", "interface I20 {}", "interface"),
+    ("header_cb", "header_register_callback(function() { echo 'HA'; }); echo 'x';", "header_callbacks"),
+    ("set_time_limit", "set_time_limit(1);", "time_limit"),
 ]
 OBSERVERS = [
     ("class", "echo class_exists('C20K') ? 'y' : 'n'; class C20K { function f() { return 2; } } echo (new C20K())->f();", "class"),
@@ -361,6 +476,15 @@ OBSERVERS = [
     ("ob_level", "echo ob_get_level();", "ob_level"),
     ("getenv", "echo getenv('C20ENV') === false ? 'n' : 'y';", "putenv"),
     ("spl_autoload", "echo count(spl_autoload_functions());", "spl_autoload"),
+    ("argv", "echo count($argv);", "argv"),
+    ("spl_object_id", "$o = new stdClass(); echo spl_object_id($o), ':', spl_object_hash($o);", "object_ids"),
+    ("var_dump", "$o = new stdClass(); var_dump($o);", "object_ids"),
+    ("error_reporting", "echo error_reporting();", "error_reporting"),
+    ("shutdown", "echo 'b';", "shutdown_list"),
+    ("error_handler", "echo @$undefined_c20, 'x';", "error_handler"),
+    ("interface", "echo interface_exists('I20') ? 'y' : 'n';", "interface"),
+    ("header_cb", "header_register_callback(function() { echo 'HC'; }); echo 'b';", "header_callbacks"),
+    ("time_limit", "sleep(1); $i = 0; while ($i < 100000) { $i++; } echo 'done';", "time_limit", "slow"),
 ]
 
 # ---------------------------------------------------------------------------- corpus
@@ -368,7 +492,7 @@ NONDET_SRC = re.compile(
     r"\b(time|microtime|hrtime|date|gmdate|strftime|mktime|strtotime|rand|mt_rand|random_int|random_bytes|"
     r"uniqid|shuffle|array_rand|str_shuffle|getmypid|memory_get_usage|memory_get_peak_usage|sleep|usleep|"
     r"tempnam|tmpfile|sys_get_temp_dir|spawn|curl_init|fsockopen|stream_socket_client|proc_open|"
-    r"shell_exec|system|passthru|gethostname|php_uname|spl_object_id|spl_object_hash|lcg_value|"
+    r"shell_exec|system|passthru|gethostname|php_uname|lcg_value|"
     r"file_put_contents|mkdir|unlink|rmdir|touch|fwrite|set_time_limit)\s*\(|new\s+\\?(DateTime|DateTimeImmutable|DateTimeZone)|"
     r"\b(pcntl_|posix_)|\bgo\s+(function|fn|\$)|->listen\(|->serve\(|Net\\\\Http|Channel")
 TS = re.compile(r"\d{4}-\d{2}-\d{2}[ T]\d{2}:\d{2}:\d{2}")
@@ -409,33 +533,106 @@ def run_proc(binary, relpath, repo, timeout=20):
 # ---------------------------------------------------------------------------- site inventory
 # classification of the range-over-map statements of runtime/, node/, data/ (key = file:func:expr)
 SITE_CLASS = {
+    # ---- modelled (Model.v Part 2 + a theorem of Properties.v)
     "runtime/vm.go:VM.findClassCaseInsensitive:vm.classMap": ("modelled", "find_ci; least matching key, order independent (lookup_oracle_independent)"),
-    "node/class.go:ClassStatement.GetMethods:c.Methods": ("modelled", "keys collected then sort.Strings (get_methods_oracle_independent)"),
+    "node/class.go:ClassStatement.GetMethods:c.Methods": ("modelled", "names collected then sort.Strings (methods_listing_oracle_independent)"),
     "runtime/reflect_class.go:ReflectClass.GetMethods:rc.methods": ("modelled", "keys collected then sort.Strings (member_names_oracle_independent)"),
     "runtime/reflect_class.go:ReflectClass.GetPropertyList:rc.properties": ("modelled", "keys collected then sort.Strings (member_names_oracle_independent)"),
+    "node/class_abstract_validate.go:abstractStaticMethodNames:methods": ("modelled", "names collected then sort.Strings (sorted_range_oracle_independent); site program abstract_static_fatal"),
+    "node/init_class.go:InitClass.GetValue:n.KV": ("modelled", "keys collected, sort.Strings, then evaluated in that order (sorted_range_oracle_independent); site program init_class_kv"),
+    "node/html.go:HtmlNode.generateNormalHtml:h.Attributes": ("modelled", "names collected, sort.Strings, then printed (sorted_range_oracle_independent); site program html_attributes"),
+    "node/js_server.go:formatObjectValue:v": ("modelled", "keys collected then sort.Strings (sorted_range_oracle_independent)"),
+    "node/js_server.go:formatClassOrObjectValue:properties": ("modelled", "insertion order first, the rest collected and sorted (sorted_range_oracle_independent); site program js_server_object"),
+    "node/html.go:HtmlNode.generateHtml:h.Attributes": ("modelled", "picks THE for / if attribute: independent of the order when at most one key matches (unique_pick_oracle_independent); the html parser builds at most one AttrForValue and one AttrIfValue per element; site program html_special_attribute_pick"),
+    "node/html.go:HtmlTemplateNode.GetValue:h.HtmlNode.Attributes": ("modelled", "same pick on <template> (unique_pick_oracle_independent)"),
+    # ---- order-insensitive by inspection
     "runtime/vm.go:VM.AllFuncs:vm.funcMap": ("order-insensitive", "collect then sort.Slice by name"),
     "runtime/vm.go:VM.AllClasses:vm.classMap": ("order-insensitive", "collect then sort.Slice by name"),
+    "runtime/vm.go:VM.AllInterfaces:vm.interfaceMap": ("order-insensitive", "collect then sort.Slice by name"),
     "data/value_class.go:ClassValue.GetProperties:instanceProps": ("order-insensitive", "copies a map into a map"),
     "node/binary_eq_strict.go:isStrictEqual:props1": ("order-insensitive", "conjunction over all keys; result is a boolean"),
     "node/lambda.go:LambdaExpression.Call:f.parent": ("order-insensitive", "writes distinct slots by index"),
+    "node/lambda.go:LambdaExpression.GetValue:f.parent": ("order-insensitive", "reads distinct slots by index into a map"),
     "runtime/vm.go:bindTemplateVariables:props": ("order-insensitive", "writes distinct variables by name"),
     "runtime/reflect_register.go:VM.RegisterReflectFunctions:functions": ("order-insensitive", "registers distinct names"),
     "runtime/vm_temp.go:TempVM.AddedClasses:vm.addedClasses": ("order-insensitive", "verification/diagnostic listing, not script visible"),
-    "node/class_abstract_validate.go:abstractMethodsDeclaredOnClass:cs.StaticMethods": ("unmodelled", "which missing abstract static method is reported first"),
-    "node/class_abstract_validate.go:abstractMethodsDeclaredOnClass:cg.StaticMethods": ("unmodelled", "which missing abstract static method is reported first"),
-    "node/foreach.go:ForeachValueTarget.SetValue:d.GetProperties()": ("unmodelled", "list()-style destructuring target over an object; breaks after first"),
-    "node/init_class.go:InitClass.GetValue:n.KV": ("unmodelled", "`new C { k: v }` initialiser: evaluation and insertion order of the named fields"),
-    "node/html.go:HtmlNode.generateHtml:h.Attributes": ("unmodelled", "html template attribute order"),
-    "node/html.go:HtmlNode.generateNormalHtml:h.Attributes": ("unmodelled", "html template attribute order"),
-    "node/html.go:HtmlForNode.GetValue:array.GetProperties()": ("unmodelled", "html for-loop over an object"),
-    "node/html.go:HtmlTemplateNode.GetValue:h.HtmlNode.Attributes": ("unmodelled", "html template attribute order"),
-    "node/js_server.go:formatObjectValue:v": ("unmodelled", "JS value formatting of objects"),
-    "node/js_server.go:formatClassOrObjectValue:properties": ("unmodelled", "JS value formatting of objects"),
-    "node/globals_files_variable.go:FilesVariable.GetValue:httpReq.MultipartForm.File": ("unmodelled", "HTTP only: $_FILES key order (C11)"),
-    "node/globals_get_variable.go:GetVariable.GetValue:httpReq.URL.Query()": ("unmodelled", "HTTP only: $_GET key order (C11)"),
-    "node/globals_post_variable.go:PostVariable.GetValue:httpReq.Form": ("unmodelled", "HTTP only: $_POST key order (C11)"),
-    "node/globals_server_variable.go:ServerVariable.GetValue:httpReq.Header": ("unmodelled", "HTTP only: $_SERVER header key order (C11)"),
+    "parser/class_parser.go:ClassParser.mergeTraitsIntoMaps:cs.StaticMethods": ("order-insensitive", "map into map, distinct keys, insert-if-absent"),
+    "parser/class_parser.go:ClassParser.mergeTraits:cs.StaticMethods": ("order-insensitive", "map into map, distinct keys, insert-if-absent"),
+    "parser/new_parser.go:NewStructParser.parseAnonymousClass:staticProperties": ("order-insensitive", "stores each static default into a sync.Map by name; the defaults are constant expressions"),
+    "parser/scope_manager.go:DefaultScope.GetVariables:s.variables": ("order-insensitive", "writes distinct slice slots by index"),
+    "std/cli/cli_runtime.go:CliRuntime.showHelp:commands": ("order-insensitive", "maximum of the name lengths (the listing loop below it now ranges over sorted keys)"),
+    "std/loop/hashmap_class.go:HashMap.ContainsValue:h.items": ("order-insensitive", "existential over all values; result is a boolean"),
+    "std/loop/list_class.go:ListClass.Clone:m": ("order-insensitive", "List<T> has one type parameter: the map has one entry"),
+    "std/protowire/load.go:Load:constants": ("order-insensitive", "defines distinct constants"),
+    "std/net/http/request_bind_method.go:RequestBindMethod.Call:h.source.Form": ("order-insensitive", "map into map, then encoding/json (which sorts keys)"),
+    "std/php/array/array_intersect.go:ArrayIntersectFunction.Call:props": ("order-insensitive", "builds a set (map) of values"),
+    "std/php/core/ini_defaults.go:InitIniDefaults:iniDefaults": ("order-insensitive", "stores distinct keys into a sync.Map"),
+    "std/php/core/ini_defaults.go:ApplyIniMap:values": ("order-insensitive", "stores distinct keys into a sync.Map"),
+    "std/php/stream/stream_context.go:StreamContext.WrapperOptions:opts": ("order-insensitive", "copies a map into a map"),
+    "std/php/tokenizer.go:InitTokenConstants:consts": ("order-insensitive", "defines distinct constants"),
+    "std/php/array/array_rand.go:ArrayRandFunction.Call:props": ("order-insensitive", "array_rand: the result is random by contract (excluded from the corpus by NONDET_SRC)"),
+    # ---- unmodelled: need a database connection to run at all; not in the scope of C20's anchors
+    "std/database/connection_manager.go:ConnectionManager.ListConnections:cm.connections": ("unmodelled", "needs database connections: order of the listed connection names"),
+    "std/database/db.go:db.getTableNameFromAnnotation:annotationProps": ("unmodelled", "needs a database: first annotation property whose value is a string"),
+    "std/database/db_insert.go:DbInsertMethod.Call:properties": ("unmodelled", "needs a database: map into map"),
+    "std/database/db_insert.go:DbInsertMethod.Call:insertData": ("unmodelled", "needs a database: column order of the generated INSERT text (same rows either way)"),
+    "std/database/db_update.go:DbUpdateMethod.Call:properties": ("unmodelled", "needs a database: map into map"),
+    "std/database/db_update.go:DbUpdateMethod.Call:updateData": ("unmodelled", "needs a database: column order of the generated UPDATE text (same rows either way)"),
+    "std/php/pdo/pdo_statement.go:buildFetchResult:row": ("unmodelled", "needs a database: column order of a fetched row object"),
 }
+
+
+# classification of the package-level variables that some function other than init() writes
+# (harness/cmd/c20walk, kind "var").  scope: PerVM-keyed | ProcReset | ProcSticky | config | constant;
+# `cell` links the variable to a row of CELLS (the polluter/observer pairs exercise it) where a script can reach it.
+VAR_CLASS = {
+    "data.objectIDs": ("ProcReset", "object_ids", "spl_object_id / var_dump numbering; cleared by runtime.NewVM (ResetObjectIDs)"),
+    "data.nextObjectID": ("ProcReset", "object_ids", "same table"),
+    "data.userOutputEmitted": ("ProcReset", "userOutputEmitted", "reset by VM.LoadAndRun"),
+    "data.WriteOutput": ("config", None, "output sink installed by the embedding Go program (the harness, the HTTP server), not reachable from a script"),
+    "node.argvValue": ("ProcReset", "argv", "cleared by ResetSuperglobals (runtime.NewVM)"),
+    "node.argcValue": ("ProcReset", "argv", "cleared by ResetSuperglobals"),
+    "node.cookieValue": ("ProcReset", "_COOKIE", "cleared by ResetSuperglobals"),
+    "node.envValue": ("ProcReset", "_ENV", "cleared by ResetSuperglobals"),
+    "node.filesValue": ("ProcReset", "_GET", "$_FILES: cleared by ResetSuperglobals with the others (filled only under HTTP)"),
+    "node.getValue": ("ProcReset", "_GET", "cleared by ResetSuperglobals"),
+    "node.globalsValue": ("ProcReset", "GLOBALS", "cleared by ResetSuperglobals"),
+    "node.postValue": ("ProcReset", "_POST", "cleared by ResetSuperglobals"),
+    "node.requestValue": ("ProcReset", "_REQUEST", "cleared by ResetSuperglobals"),
+    "node.serverValue": ("ProcReset", "_SERVER", "cleared by ResetSuperglobals"),
+    "node.sessionValue": ("ProcReset", "_SESSION", "cleared by ResetSuperglobals"),
+    "node.includeOnceCache": ("PerVM-keyed", "include_once", "parsed-file cache shared by the process; whether a file counts as included is decided by the VM's own phpFileCache first (/repo 0127905)"),
+    "parser.parserRouter": ("config", None, "token -> statement parser table, extended by Go extensions through AddParse at start-up"),
+    "parser.autoload": ("ProcReset", "spl_autoload", "cleared by runtime.NewVM (ResetAutoLoad)"),
+    "parser.globalScopeFactory": ("config", None, "set by Go embedding code"),
+    "std/php/core.headerCallbacks": ("ProcReset", "header_callbacks", "cleared by php.Load (ResetHeaderCallbacks)"),
+    "std/php/core.headerOutputStarted": ("ProcReset", "header_callbacks", "cleared by php.Load"),
+    "std/php/core.iniStore": ("ProcReset", "ini", "emptied, then refilled with the defaults, by php.Load (InitIniDefaults)"),
+    "std/php/core.obStack": ("ProcReset", "ob_level", "unwound by FlushAllBuffersFn at script end (/repo 7b31d88)"),
+    "std/php/core.phptInputBody": ("ProcReset", None, "php://input body for the phpt runner: set from the environment by php.Load"),
+    "std/php/core.executionDeadline": ("ProcReset", "time_limit", "cleared by php.Load (SetExecutionDeadline(0))"),
+    "std/php/core.executionLimitSec": ("ProcReset", "time_limit", "same"),
+    "std/php/stream.nextStreamContextID": ("ProcSticky", None, "counter behind stream_context_create(): the id is not printable from a script today ((int)$ctx is 1 for every context)"),
+    "std/php.errorReportingLevel": ("ProcSticky", None, "written by error_reporting($level) - which declares no parameter, so the assignment is never reached today (error_reporting(0); echo error_reporting(); prints 32767 in one script); the error_reporting polluter/observer pair stays in the table (expected: no difference) so that a repair of the function shows the leak"),
+    # HTTP / CLI application frameworks: one application per process by design (routes and commands are registered
+    # while the single application object is constructed); outside the anchors of C20
+    "std/cli/annotation.cliScanningDirs": ("config", None, "re-entrancy guard of the CLI application scanner"),
+    "std/cli/annotation.registeredCliExitClasses": ("ProcSticky", None, "CLI framework registry: one application per process"),
+    "std/cli/annotation.registeredCommands": ("ProcSticky", None, "CLI framework registry: one application per process"),
+    "std/net/annotation.scanningDirs": ("config", None, "re-entrancy guard of the HTTP application scanner"),
+    "std/net/annotation.registeredExitClasses": ("ProcSticky", None, "HTTP framework registry: one application per process"),
+    "std/net/annotation.pendingRoutes": ("ProcSticky", None, "HTTP framework registry, drained by RegisterPendingRoutes"),
+    "std/net/annotation.pendingControllers": ("ProcSticky", None, "HTTP framework registry, drained by RegisterPendingRoutes"),
+    "std/net/annotation.controllerMiddlewares": ("ProcSticky", None, "HTTP framework registry, drained by RegisterPendingRoutes"),
+    "std/container.registeringEngine": ("ProcSticky", None, "container framework: engine being populated"),
+    "std/container.defaultEngine": ("ProcSticky", None, "container framework singleton"),
+    "std/container.defaultInstance": ("ProcSticky", None, "container framework singleton"),
+    "std/container.metaByVM": ("PerVM-keyed", None, "keyed by the VM's address"),
+    "std/database.globalManager": ("ProcSticky", None, "database connection pool: process-wide by design"),
+    "std/net/http.requestAttrBags": ("PerVM-keyed", None, "keyed by *http.Request, deleted when the request ends (C11)"),
+    "std/net/http.requestFormatterSlots": ("PerVM-keyed", None, "keyed by *http.Request, deleted when the request ends (C11)"),
+}
+_REGEXP_TYPES = ("*regexp.Regexp",)
 
 
 def site_key(s):
@@ -733,6 +930,7 @@ def main(ck):
             probe_cases.append({"kind": "probe", "src": src, "labels": labs, "expect": exp})
     nproc = 3 if quick else 8
     probes_seen = {}
+    probes_thrown = {}
     if probe_cases:
         progs = [{"kind": "prog", "src": c["src"], "file": "c20p.php", "reps": reps_vm} for c in probe_cases]
         outs, rc, err = run_engine(binary, progs)
@@ -761,7 +959,11 @@ def main(ck):
                 for lab, vs in variants.items():
                     probes_seen[lab] = probes_seen.get(lab, 0) + 1
                     want = (c.get("expect") or {}).get(lab)
-                    if len(vs) == 1 and want is not None and json.loads(next(iter(vs))) != [want]:
+                    got1 = json.loads(next(iter(vs))) if (len(vs) == 1 and not lab.startswith("@")) else None
+                    if len(vs) == 1 and want is not None and got1 and got1[0].startswith("THROWN:"):
+                        probes_thrown[lab] = got1[0]
+                        continue
+                    if len(vs) == 1 and want is not None and got1 != [want]:
                         ck.violation("order:%s" % lab, {"case": {"kind": "probe", "src": c["src"], "labels": [lab], "expect": {lab: want}},
                                                         "impl_out": sorted(vs)[:2], "want": want,
                                                         "clause": "entries are enumerated in insertion order (probe %s)" % lab})
@@ -773,6 +975,71 @@ def main(ck):
             ck.cov["probe_programs"] = len(probe_cases)
             ck.cov["probe_runs_per_program"] = "%d fresh VMs + %d fresh processes" % (reps_vm, nproc)
             ck.cov["probe_label_frequency"] = probes_seen
+            ck.cov["probes_that_threw (deterministically; not an order observation)"] = probes_thrown
+
+    # ================================================================= site programs
+    site_cases = []
+    if replay and replay.get("kind") == "site":
+        site_cases = [replay]
+    elif replay is None:
+        site_cases = site_programs()
+    nsite = 4 if quick else 12
+    sorted_terms, sorted_idx = [], []
+    if site_cases:
+        sdir = os.path.join(ck.bdir, "site")
+        os.makedirs(sdir, exist_ok=True)
+        for c in site_cases:
+            runs = []
+            if c["how"] == "proc":
+                path = os.path.join(sdir, c["file"])
+                open(path, "w").write(c["src"])
+                for _ in range(nsite):
+                    rcode, so, se = run_proc(origami, path, repo)
+                    runs.append((str(rcode), so, se))
+            else:
+                req = {"kind": c["how"], "src": c["src"], "reps": nsite}
+                for k in ("query", "form", "headers"):
+                    if k in c:
+                        req[k] = c[k]
+                outs, rc, err = run_engine(binary, [req], cwd=ck.bdir)
+                if len(outs) != 1 or outs[0].get("err"):
+                    ck.log("site %s: engine rc=%s %s %s" % (c["name"], rc, outs, err[-800:]))
+                    ck.broken.append("harness-run:site")
+                    continue
+                for r in outs[0].get("runs", []):
+                    runs += [(r["outcome"], r["out"], "")] * r.get("n", 1)
+            evaluations += len(runs)
+            nontriv += 1
+            distinct = sorted(set(runs))
+            if ck.replay:
+                ck.log("replay site %s: %d runs, %d distinct observations\n%s" % (c["name"], len(runs), len(distinct), "\n".join(map(str, distinct[:3]))))
+            if len(distinct) > 1:
+                ck.violation("nondet:site:%s" % c["name"], {"case": c, "impl_out": [list(d) for d in distinct[:4]],
+                                                           "clause": "same program, same inputs: byte-identical output, error and exit status (%d runs gave %d different observations)" % (len(runs), len(distinct))})
+                continue
+            oc, so, se = distinct[0]
+            wrong = None
+            if c.get("expect_out") is not None and so != c["expect_out"]:
+                wrong = c["expect_out"]
+            if c.get("expect_contains") and c["expect_contains"] not in so:
+                wrong = c["expect_contains"]
+            if c.get("expect_in_stderr_or_out") and c["expect_in_stderr_or_out"] not in (so + se):
+                wrong = c["expect_in_stderr_or_out"]
+            if wrong is not None:
+                ck.violation("order:site:%s" % c["name"], {"case": c, "impl_out": [oc, so[-1500:], se[-1500:]], "want": wrong,
+                                                         "clause": "sorted_range / insertion order: the site must enumerate in the stated order"})
+            for keys, pref, observed in _site_lists(c["name"], so, se):
+                sorted_terms.append("(%s, %s, %s)" % (coq_slist(keys), coq_slist(pref), coq_slist(observed)))
+                sorted_idx.append((c, observed))
+        sbad = ck.eval_cases("sorted", HEADER, sorted_terms, "check_sorted", shard=400)
+        traces += len(sorted_terms)
+        evaluations += len(sorted_terms)
+        for j, cl in sorted(sbad.items()):
+            c, observed = sorted_idx[j]
+            ck.violation("order:site-model:%s" % c["name"], {"case": c, "impl_out": observed,
+                                                           "clause": "sorted_range / preferred_then_sorted: the model and the real site disagree on the order produced"})
+        ck.cov["site_programs"] = [c["name"] for c in site_cases]
+        ck.cov["site_program_runs_each"] = nsite
 
     # ================================================================= corpus (fresh processes)
     if replay is None or (replay and replay.get("kind") == "corpus"):
@@ -813,9 +1080,11 @@ def main(ck):
         pair_cases = [replay]
     elif replay is None:
         for (pl, pa, wcell) in POLLUTERS:
-            for (ol, ob, rcell) in OBSERVERS:
+            for obs_entry in OBSERVERS:
+                ol, ob, rcell = obs_entry[:3]
+                slow = len(obs_entry) > 3
                 rcells = rcell if isinstance(rcell, list) else [rcell]
-                if wcell in rcells or rng.random() < (0.25 if quick else 1.0):
+                if wcell in rcells or (rng.random() < (0.25 if quick else 1.0) and not (slow and quick)):
                     pair_cases.append({"kind": "pair", "pl": pl, "ol": ol, "wcell": wcell, "rcell": rcells,
                                        "a": "<?php " + pa.replace("%INC%", incfile), "b": "<?php " + ob.replace("%INC%", incfile)})
         # generated probe programs as A and as B
@@ -837,6 +1106,9 @@ def main(ck):
                 if o.get("err") or not o.get("alone") or not o.get("after"):
                     ck.violation("pair:error", {"case": c, "impl_out": o, "clause": "child process failed"})
                     continue
+                for side in ("alone", "after"):
+                    if o[side].get("raw"):
+                        o[side]["raw"] = re.sub(r"c20-b-\d+\.php", "c20-b.php", o[side]["raw"])
                 leak = o["alone"] != o["after"]
                 if c["wcell"] == "-":
                     # generated programs: no abstract script; the clause itself is the oracle
@@ -876,14 +1148,15 @@ def main(ck):
 
     # ================================================================= site inventory
     if replay is None:
-        p = subprocess.run([walker, repo, "./runtime", "./node", "./data"], stdout=subprocess.PIPE, stderr=subprocess.PIPE,
+        p = subprocess.run([walker, repo, "./runtime", "./node", "./data", "./parser", "./std/..."], stdout=subprocess.PIPE, stderr=subprocess.PIPE,
                            text=True, env=vcheck.go_env(), timeout=600)
-        sites = []
+        sites, pvars = [], []
         for l in p.stdout.splitlines():
             try:
-                sites.append(json.loads(l))
+                j = json.loads(l)
             except ValueError:
-                pass
+                continue
+            (pvars if j.get("kind") == "var" else sites).append(j)
         inv, gaps = [], []
         for s in sites:
             k = site_key(s)
@@ -896,14 +1169,49 @@ def main(ck):
             inv.append({"site": k, "line": s["line"], "class": cls[0], "why": cls[1]})
         if not sites:
             ck.notes.append("site walker produced no output: " + p.stderr[-500:])
+            ck.broken.append("harness-run:walker")
+        ck.cov["map_range_sites_packages"] = "runtime node data parser std/... (go list -deps + go/types)"
         ck.cov["map_range_sites"] = inv
         ck.cov["map_range_sites_by_class"] = {c: sum(1 for x in inv if x["class"] == c)
                                              for c in ("modelled", "order-insensitive", "unmodelled", "unclassified")}
         ck.cov["map_range_sites_unclassified"] = gaps
-        missing = [k for k, v in SITE_CLASS.items() if v[0] == "modelled" and k not in {site_key(s) for s in sites}]
+        present = {site_key(s) for s in sites}
+        missing = [k for k, v in SITE_CLASS.items() if v[0] == "modelled" and k not in present]
         if missing:
             ck.notes.append("modelled map-range sites no longer present in the source (model may be stale): %s" % missing)
             ck.cov["modelled_sites_missing"] = missing
+        stale = sorted(k for k in SITE_CLASS if k not in present)
+        ck.cov["classified_sites_no_longer_in_the_source"] = stale
+        if gaps:
+            # a new range-over-map statement is a potential order dependence nobody has looked at
+            ck.violation("site:unclassified:%s" % gaps[0], {"case": {"kind": "site-inventory", "sites": gaps},
+                                                            "clause": "every `for ... range <map>` of runtime/node/data/parser/std must be classified (modelled, order-insensitive with a reason, or unmodelled with a reason)"})
+
+        # ---- package-level variables written outside init(): the process-level state a fresh VM could inherit
+        vinv, vgaps = [], []
+        for v in pvars:
+            if v["type"] in _REGEXP_TYPES:
+                continue        # method calls on a compiled regexp do not change it
+            k = "%s.%s" % (v["pkg"].replace("github.com/php-any/origami/", ""), v["name"])
+            cls = VAR_CLASS.get(k)
+            if cls is None:
+                vgaps.append(k)
+                cls = ("unclassified", None, "new package-level variable written at run time")
+            elif cls[1] is not None and cls[1] not in CELLS:
+                ck.notes.append("VAR_CLASS[%s] names an unknown cell %s" % (k, cls[1]))
+                ck.broken.append("check-table:VAR_CLASS")
+            elif cls[1] is not None and cls[0] in ("ProcReset", "ProcSticky") and CELLS[cls[1]] != cls[0] and k != "node.includeOnceCache":
+                ck.notes.append("VAR_CLASS[%s] says %s but its cell %s is %s" % (k, cls[0], cls[1], CELLS[cls[1]]))
+                ck.broken.append("check-table:VAR_CLASS")
+            vinv.append({"var": k, "at": "%s:%d" % (v["file"], v["line"]), "type": v["type"][:60], "scope": cls[0], "cell": cls[1], "why": cls[2],
+                         "written_by": sorted(set(w["func"] for w in v["writes"]))[:8]})
+        ck.cov["package_vars_written_at_run_time"] = vinv
+        ck.cov["package_vars_by_scope"] = {c: sum(1 for x in vinv if x["scope"] == c)
+                                           for c in ("PerVM-keyed", "ProcReset", "ProcSticky", "config", "unclassified")}
+        ck.cov["package_vars_with_a_polluter_observer_pair"] = sum(1 for x in vinv if x["cell"])
+        if vgaps:
+            ck.violation("state:unclassified:%s" % vgaps[0], {"case": {"kind": "var-inventory", "vars": vgaps},
+                                                             "clause": "every package-level variable written outside init() must be classified (scope + the state cell whose polluter/observer pair exercises it)"})
 
     ck.finish(level="proof", evaluations=evaluations, distinct_nontrivial=nontriv,
               rule="om: all sequences up to the stated length over a 13-op pool + seeded sequences of 1..25 ops with collision-biased keys; "
